@@ -110,8 +110,9 @@ type c17Sheet struct {
 }
 
 type c17SI struct {
-	V    int  `json:"v"`
-	Rich bool `json:"rich"`
+	V     int  `json:"v"`
+	Rich  bool `json:"rich"`
+	Empty bool `json:"empty"`
 }
 
 type c17Case struct {
@@ -190,7 +191,7 @@ func c17Project(s string) (c17Disp, bool) {
 func c17Workbook(c *c17Case) *ooxmlw.XWorkbook {
 	wb := &ooxmlw.XWorkbook{Extras: true, InfraFirst: true}
 	for _, e := range c.SST {
-		wb.SST = append(wb.SST, ooxmlw.XSI{Text: c17Tok(e.V), Rich: e.Rich})
+		wb.SST = append(wb.SST, ooxmlw.XSI{Text: c17Tok(e.V), Rich: e.Rich, Empty: e.Empty})
 	}
 	for i, sh := range c.Sheets {
 		xs := ooxmlw.XSheet{Name: fmt.Sprintf("Sheet%d", i+1), SheetID: i + 1, RID: fmt.Sprintf("rId%d", i+1),
@@ -668,6 +669,9 @@ func c17Compare(view, rule string, sh int, exp []c17Exp, covered []c17Pos, kinds
 			return mm("lost:row-without-r", fmt.Sprintf("no cell of the sheet is shown (e.g. %s = %s); its <row> elements carry no r attribute (optional in ECMA-376), the cells carry full references", ref, show(e.D)))
 		}
 		k := kinds[c17Pos{e.C, e.R}]
+		if o, f := obsAt[c17Pos{e.C, e.R}]; f {
+			return mm("wrong-value:"+k, fmt.Sprintf("%s (kind %s) shows %q, the cell holds %s", ref, k, o.Raw, show(e.D)))
+		}
 		return mm("lost:"+k, fmt.Sprintf("%s (kind %s) holds %s, which is shown nowhere in this view", ref, k, show(e.D)))
 	}
 }
@@ -857,7 +861,7 @@ func c17Replay(i int, raw []byte) Result {
 		for _, r := range sh.Rows {
 			for _, cell := range r.Cells {
 				kinds[s][c17Pos{cell.C, cell.R}] = cell.T
-				if cov[c17Pos{cell.C, cell.R}] && cell.T != "z" {
+				if cov[c17Pos{cell.C, cell.R}] && cell.D.K != "z" {
 					stale[s][cell.D] = true // content of a covered cell (for naming the symptom)
 				}
 			}
